@@ -88,7 +88,7 @@ func checkReplyModel(r *Result, o replyOpts) []Violation {
 		}
 		ended := false
 		for _, e := range r.Hist {
-			if e.C == ci && (e.K == KFin || e.K == KRst || e.K == KSrvClose || e.K == KFailW) {
+			if e.C == ci && (e.K == KFin || e.K == KRst || e.K == KFailW) {
 				ended = true
 			}
 		}
@@ -275,7 +275,7 @@ func checkCallbacks(r *Result, ci int, prop string, _ int) *Violation {
 		}
 		ended := false
 		for _, e := range r.Hist {
-			if e.C == ci && (e.K == KFin || e.K == KRst || e.K == KSrvClose) {
+			if e.C == ci && (e.K == KFin || e.K == KRst) {
 				ended = true
 			}
 		}
@@ -461,7 +461,7 @@ func checkC06(r *Result) []Violation {
 }
 
 func init() {
-	register(&propDef{ID: "C06", Gen: genC06, Enum: enumC06, Check: checkC06, Foreign: foreignCrash,
+	register(&propDef{ID: "C06", Gen: genC06, Enum: enumC06, Check: withCrashRule("C06", checkC06),
 		Interesting: func(r *Result) bool {
 			n := 0
 			for _, e := range r.Hist {
